@@ -315,6 +315,16 @@ pub fn run(args: &crate::Args) {
         let mut last_lines = lines_of(&res.stdout);
         let mut last_prints = fingerprints(&last_lines); // the announced paths as that run left them
         let mut cargo_count = 0;
+        // cargo runs a build script again on every build while an announced path does not exist (a call on a directory
+        // that is not there, a link to nothing under a template name): there is no decision to compare with
+        let with_cargo = with_cargo
+            && last_lines.iter().all(|p| {
+                let q = Path::new(p);
+                if q.is_absolute() { q.exists() } else { indir.join(q).exists() }
+            });
+        if !with_cargo && si < ncargo {
+            stats.hit("cargo.skipped-missing-announced-path");
+        }
         if with_cargo {
             match cargo_build(&indir, &target) {
                 Ok(()) => {
